@@ -307,6 +307,12 @@ class FuncLowerer:
                 fty = u.type_of(fdecl)
                 target = 'self->%s' % (u.field_cname(fdecl))
                 e = inner[0]
+                if e.get('kind') == 'CXXDefaultInitExpr' and not e.get('inner'):
+                    # clang's JSON does not repeat the default member initialiser: take it from the field
+                    finit = [x for x in fdecl.get('inner', []) if 'Attr' not in x.get('kind', '')]
+                    if not finit:
+                        abort('default member initialiser not found', fdecl)
+                    e = finit[0]
                 out += self.init_object(target, fty, e, 1)
             elif 'baseInit' in ini:
                 bt = u.resolve(parse_type(ini['baseInit'].get('desugaredQualType') or ini['baseInit']['qualType']))
